@@ -123,7 +123,7 @@ type TermStore struct {
 	Injective map[string]bool
 	// NonRange: ids of terms assumed not to be the output of any Injective function (per path).
 	NonRange map[int]bool
-	kb     strings.Builder
+	kb       strings.Builder
 }
 
 type ufSig struct {
@@ -585,6 +585,36 @@ func (ts *TermStore) BvBin(op Op, a, b *Term) *Term {
 	case OBvAnd:
 		if isZero(a) || isZero(b) {
 			return ts.BVConst(0, w)
+		}
+		if w <= 64 {
+			x, c := a, b
+			if x.IsConst() {
+				x, c = b, a
+			}
+			if c.IsConst() && !x.IsConst() {
+				// (y & A) & B = y & (A&B)
+				if x.Op == OBvAnd {
+					if x.Args[0].IsConst() {
+						return ts.BvBin(OBvAnd, x.Args[1], ts.BVConst(x.Args[0].Val&c.Val, w))
+					}
+					if x.Args[1].IsConst() {
+						return ts.BvBin(OBvAnd, x.Args[0], ts.BVConst(x.Args[1].Val&c.Val, w))
+					}
+				}
+				// (y | A) & B = (y & B) | (A & B)
+				if x.Op == OBvOr {
+					if x.Args[0].IsConst() {
+						return ts.BvBin(OBvOr, ts.BvBin(OBvAnd, x.Args[1], c), ts.BVConst(x.Args[0].Val&c.Val, w))
+					}
+					if x.Args[1].IsConst() {
+						return ts.BvBin(OBvOr, ts.BvBin(OBvAnd, x.Args[0], c), ts.BVConst(x.Args[1].Val&c.Val, w))
+					}
+				}
+				// zext(y) & B where B only has bits above y's width
+				if x.Op == OZExt && c.Val&mask(x.Args[0].Sort.W) == 0 {
+					return ts.BVConst(0, w)
+				}
+			}
 		}
 		if isOnes(a) {
 			return b
